@@ -2,10 +2,16 @@ use crate::fw::{PropertyDef, Tier};
 
 pub mod common;
 pub mod model;
+pub mod algos;
+pub mod order;
+pub mod routing;
 
 pub fn property(id: &str, tier: Tier) -> Option<PropertyDef> {
     match id {
         "C14" => Some(model::property(tier)),
+        "C09" => Some(order::property(tier)),
+        "C16" => Some(routing::property(tier)),
+        "C17" => Some(algos::property(tier)),
         _ => None,
     }
 }
